@@ -686,6 +686,13 @@ def builtin_method(ex, st, obj, mname, args, kwargs, cx, node, k):
             # sep.join(list of str): an (uninterpreted, deterministic) function of the separator, the length and the items
             f_ = ex.uf('str_join', z3.StringSort(), z3.IntSort(), z3.ArraySort(z3.IntSort(), z3.StringSort()), z3.StringSort())
             return k(st, SV(STR, f_(obj.z, ex.list_len(st, args[0]), ex.list_arr(st, args[0]))))
+        if mname in ('partition', 'rpartition') and len(args) == 1 and args[0].ty.kind == 'str':
+            # s.partition(sep) -> (head, sep-or-empty, tail): three (uninterpreted, deterministic) functions of s and sep
+            ty3 = T.tup(STR, STR, STR)
+            parts = [ex.uf(f'str_{mname}{i_}', z3.StringSort(), z3.StringSort(), z3.StringSort())(obj.z, args[0].z) for i_ in range(3)]
+            st2 = st.assume(z3.Or(parts[1] == args[0].z, parts[1] == z3.StringVal('')),
+                            z3.Concat(parts[0], parts[1], parts[2]) == obj.z)
+            return k(st2, SV(ty3, T.sort_of(ty3).mk(*parts)))
         if mname == 'split' and len(args) == 0:
             # s.split(): the whitespace-separated words -- a fresh list (possibly empty) whose pieces are an
             # (uninterpreted, deterministic) function of the string
